@@ -78,6 +78,13 @@ func c13GenFile(r *Rng, idx int) (string, []c13Decl) {
 		} else {
 			d.Adjacent = true // directly below the previous declaration (and below its trailing comment, if it has one)
 		}
+		redeclared := false
+		if (d.Kind == "local-number" || d.Kind == "local-string") && r.Fork(uint64(0x7477696e+i)).Chance(1, 3) {
+			// an older declaration of the same name in the same block, with a value and a comment of its own, and a use
+			// between the two: the declaration below re-declares the name
+			lines = append(lines, fmt.Sprintf("local %s = %d %solder twin %d", d.Name, 900000+i, d.Marker, i), fmt.Sprintf("print(%s)", d.Name), "")
+			redeclared = true
+		}
 		for _, b := range block {
 			lines = append(lines, d.Marker+b)
 		}
@@ -132,6 +139,9 @@ func c13GenFile(r *Rng, idx int) (string, []c13Decl) {
 		case "member-colon":
 			d.Params = []string{fmt.Sprintf("pa%d", i), fmt.Sprintf("pb%d", i)}
 			stmt = fmt.Sprintf("function host%d:%s(%s) return 1 end", idx, d.Name, strings.Join(d.Params, ", "))
+		}
+		if redeclared {
+			d.Kind += "-redeclared"
 		}
 		d.DeclLine = len(lines)
 		d.DeclCol = strings.Index(stmt, d.Name)
